@@ -90,6 +90,8 @@ pub struct ConnState {
     pub wants: usize,
     pub dropped: bool,
     pub wfail_hit: bool,
+    /// times the client waited on this connection for octets the peer will never send
+    pub stalled: usize,
 }
 
 #[derive(Clone, Debug, PartialEq)]
@@ -120,6 +122,8 @@ pub struct World {
     pub stalls: usize,
     /// reactive worlds: the first connection dialled breaks for writing after this many octets (0 = never)
     pub wfail_first: usize,
+    /// reactive worlds: the first dial is refused (nothing listens there)
+    pub refuse_first: bool,
 }
 
 pub type Shared = Arc<Mutex<World>>;
@@ -142,6 +146,7 @@ impl World {
                     wants: 0,
                     dropped: false,
                     wfail_hit: false,
+                    stalled: 0,
                 })
                 .collect(),
             dialed: 0,
@@ -152,6 +157,7 @@ impl World {
             max_transport_reads: 50_000_000,
             stalls: 0,
             wfail_first: 0,
+            refuse_first: false,
         }
     }
 
@@ -289,6 +295,7 @@ impl Read for Scripted {
                     // loop: will return Ok(0)
                 } else {
                     w.stalls += 1;
+                    w.conns[ci].stalled += 1;
                     if w.trace_conn == Some(ci) {
                         w.emit(json!({"ev":"stall"}));
                     }
@@ -344,6 +351,9 @@ pub fn install_dialer(world: &Shared) {
             cs.close_at_end = false;
             if ci == 0 {
                 cs.wfail = w.wfail_first;
+                if w.refuse_first {
+                    cs.refuse = Some(io::ErrorKind::ConnectionRefused);
+                }
             }
             let mut nw = World::new(vec![cs], vec![]);
             w.conns.push(nw.conns.remove(0));
